@@ -54,12 +54,8 @@ fn eq_cmp<const LA: usize, const LB: usize>() {
     assert!((a <= b && b <= a) == (a == b), "C20 antisymmetry");
     assert!(a.partial_cmp(&a) == Some(Ordering::Equal), "C20 reflexive");
     assert!((got == Some(Ordering::Equal)) == (a == b), "C20 order compatible with ==");
-    if LA != LB {
-        kani::cover!(a == b, "equal clocks of different length");
-    }
-    if LA >= 2 && LB >= 2 {
-        kani::cover!(got.is_none(), "incomparable clocks");
-    }
+    kani::cover!(!(LA != LB) || (a == b), "equal clocks of different length");
+    kani::cover!(!(LA >= 2 && LB >= 2) || (got.is_none()), "incomparable clocks");
 }
 
 macro_rules! all_lb {
@@ -132,9 +128,7 @@ fn transitive<const LA: usize, const LB: usize, const LC: usize>() {
     if a == b && b == c {
         assert!(a == c, "C20 transitivity of ==");
     }
-    if LA >= 1 && LB >= 1 && LC >= 1 {
-        kani::cover!(a < b && b < c, "strict chain");
-    }
+    kani::cover!(!(LA >= 1 && LB >= 1 && LC >= 1) || (a < b && b < c), "strict chain");
 }
 
 #[kani::proof]
@@ -213,9 +207,7 @@ fn merge_lub<const LA: usize, const LB: usize, const LC: usize>() {
         mx(va.at(3), vb.at(3)),
     ]);
     assert!(m == want, "C20 merge_max is the componentwise max");
-    if LA >= 2 && LB >= 2 {
-        kani::cover!(a.partial_cmp(&b).is_none(), "merge of incomparable clocks");
-    }
+    kani::cover!(!(LA >= 2 && LB >= 2) || (a.partial_cmp(&b).is_none()), "merge of incomparable clocks");
 }
 fn merge_lub_c3<const LA: usize, const LB: usize>() {
     merge_lub::<LA, LB, 3>();
@@ -314,12 +306,8 @@ fn hash_coherent<const LA: usize, const LB: usize>() {
     } else {
         assert!(!ra.same_bytes(&rb), "C04 unequal clocks feed different streams");
     }
-    if LA != LB {
-        kani::cover!(oracle_eq(&va, &vb), "equal with padding");
-    }
-    if LA == LB && LA > 0 {
-        kani::cover!(!oracle_eq(&va, &vb), "unequal same length");
-    }
+    kani::cover!(!(LA != LB) || (oracle_eq(&va, &vb)), "equal with padding");
+    kani::cover!(!(LA == LB && LA > 0) || (!oracle_eq(&va, &vb)), "unequal same length");
 }
 
 #[kani::proof]
@@ -370,9 +358,7 @@ fn from_iter_perm<const N: usize>() {
         i += 1;
     }
     assert!(m.get(Id::from(N)).is_none(), "C20 nothing beyond len");
-    if N == 3 {
-        kani::cover!(k[0] == 2 && k[1] == 0, "out-of-order construction");
-    }
+    kani::cover!(!(N == 3) || (k[0] == 2 && k[1] == 0), "out-of-order construction");
 }
 
 #[kani::proof]
@@ -433,9 +419,7 @@ fn insert_n<const N: usize>() {
         j += 1;
     }
     kani::cover!(k == N, "append");
-    if N > 0 {
-        kani::cover!(k < N, "replace");
-    }
+    kani::cover!(!(N > 0) || (k < N), "replace");
 }
 
 #[kani::proof]
@@ -546,9 +530,7 @@ fn dm_rewrite<const N: usize>() {
         assert!(ri.get(pk) == Some(&plan.rewrite(&ids[k])), "C20 rewrite rewrites id values too");
         k += 1;
     }
-    if N == 3 {
-        kani::cover!(usize::from(plan.rewrite(&Id::from(0usize))) == 2, "non-identity plan");
-    }
+    kani::cover!(!(N == 3) || (usize::from(plan.rewrite(&Id::from(0usize))) == 2), "non-identity plan");
 }
 
 #[kani::proof]
